@@ -170,6 +170,7 @@ fn main() {
 			code = 2;
 		}
 	}
+	ctx.print_known_hits();
 	ctx.write_evidence();
 	ctx.cleanup();
 	if ctx.violated() {
